@@ -396,6 +396,8 @@ class Gen:
         self.report = dict(unit=unit, functions=[], items=[], rules_applied={}, dropped=[])
         self.ledger = []    # obligations: dict(fn, label, kind, props, text)
         self.specs = {}     # contracts by function name (used by tools/audit_stubs.py)
+        self.auto_items = {}    # file -> names of statics / consts to extract next to the functions of that file (R19)
+        self._auto_done = set()
         # R4 for every function (a per-function `//@ stub` overrides): str methods Verus has no specification for
         self.default_stubs = {'starts_with': 'crate::v_starts_with', 'ends_with': 'crate::v_ends_with', 'to_lowercase': 'crate::v_to_lowercase'}
 
@@ -562,6 +564,18 @@ class Gen:
     def do_fn(self, spec):
         rel, sel = spec['file'], spec['selector']
         text, mask = self.src(rel)
+        # R19: a constant the (changed) function refers to and the template does not know is extracted with it
+        for nm in self.auto_items.get(rel, []):
+            if (rel, nm) in self._auto_done:
+                continue
+            self._auto_done.add((rel, nm))
+            for kind in ('static', 'const'):
+                try:
+                    self.do_item(rel, '%s %s' % (kind, nm))
+                    self.report['rules_applied']['R19'] = self.report['rules_applied'].get('R19', 0) + 1
+                    break
+                except LostAnchor:
+                    continue
         it = find_item(text, mask, sel)
         if it['body_open'] < 0:
             raise LostAnchor('function has no body: ' + sel)
